@@ -432,3 +432,108 @@ Proof.
   destruct (cns_roundtrip vs n H1 I1 L1) as [R1 _]. destruct (cns_roundtrip ws n H2 I2 L2) as [R2 _].
   rewrite <- R1, <- R2, E, Hl. reflexivity.
 Qed.
+
+(* ================================================================== F. the dispatcher's budget *)
+Lemma dispatch_budget n dim_max modulus :
+  dispatch n dim_max modulus <> C128 ->
+  log2up n * (clamp_dim n dim_max + 2) + log2up (modulus - 1) <= width (dispatch n dim_max modulus).
+Proof.
+  unfold dispatch, bitfield_size.
+  destruct (Z.leb_spec (log2up n * (clamp_dim n dim_max + 2) + log2up (modulus - 1)) 64); [cbn [width]; lia|].
+  destruct (Z.leb_spec (log2up n * (clamp_dim n dim_max + 2) + log2up (modulus - 1)) 128); [cbn [width]; lia|].
+  congruence.
+Qed.
+
+(* whenever help1 selects a bitfield encoding (64 or 128 bits), every simplex with at most dim_max+2 vertices below n,
+   packed with any non-zero coefficient, fits the chosen word without overflow and is read back exactly *)
+Theorem dispatch_no_overflow n dim_max modulus vs coeff :
+  2 <= modulus -> dispatch n dim_max modulus <> C128 ->
+  vs <> [] -> Z.of_nat (length vs) <= clamp_dim n dim_max + 2 ->
+  (forall v, In v vs -> 0 <= v < n) -> 1 <= coeff <= modulus - 1 ->
+  let c := dispatch n dim_max modulus in
+  let e := encoding_of c n in
+  let cb := log2up (modulus - 1) in
+  let idx := simplex_index e vs in
+  let content := pack cb idx coeff in
+  0 <= idx < 2 ^ (width c - cb) /\ 0 <= content < 2 ^ width c /\
+  unpack_index cb content = idx /\ unpack_coeff cb content = coeff /\
+  decode e (unpack_index cb content) (length vs) n = vs.
+Proof.
+  intros Hm Hc Hne Hlen Hv Hco. cbv zeta.
+  pose proof (dispatch_budget n dim_max modulus Hc) as Hbud.
+  set (c := dispatch n dim_max modulus) in *.
+  assert (He : encoding_of c n = Bitfield (log2up n)) by (destruct c; [reflexivity|reflexivity|congruence]).
+  rewrite He.
+  pose proof (log2up_nonneg n) as Hb. pose proof (log2up_nonneg (modulus - 1)) as Hcb.
+  set (b := log2up n) in *. set (cb := log2up (modulus - 1)) in *.
+  assert (Hd : digits b vs) by (intros v Hin; specialize (Hv v Hin); split; [lia|apply log2up_spec; lia]).
+  destruct (bitfield_roundtrip b Hb vs n Hne Hd) as [Hrt Hrange].
+  assert (Hcoef : 1 <= coeff <= 2 ^ cb).
+  { split; [lia|]. pose proof (log2up_spec (modulus - 1) (coeff - 1) ltac:(lia)). fold cb in H. lia. }
+  assert (Hk : b * Z.of_nat (length vs) <= width c - cb) by nia.
+  assert (Hlen0 : 0 <= b * Z.of_nat (length vs)) by nia.
+  assert (Hidx : 0 <= simplex_index (Bitfield b) vs < 2 ^ (width c - cb)).
+  { split; [lia|]. apply Z.lt_le_trans with (2 ^ (b * Z.of_nat (length vs))); [lia|].
+    apply Z.pow_le_mono_r; lia. }
+  destruct (pack_roundtrip cb (simplex_index (Bitfield b) vs) coeff Hcb (proj1 Hidx) Hcoef) as [U1 U2].
+  pose proof (pack_bound cb (width c - cb) (simplex_index (Bitfield b) vs) coeff Hcb ltac:(lia) Hidx Hcoef) as Hpb.
+  replace (width c - cb + cb) with (width c) in Hpb by lia.
+  repeat split; try lia; try assumption. rewrite U1. exact Hrt.
+Qed.
+
+(* with the combinatorial number system: if the coefficient bits fit next to C(n, |vs|) (what num_extra_bits guarantees for
+   the largest table entry), nothing overflows 128 bits and the entry is read back exactly *)
+Theorem cns_no_overflow n modulus vs coeff :
+  2 <= modulus -> vs <> [] -> increasing 0 vs -> (forall v, In v vs -> v < n) -> 1 <= coeff <= modulus - 1 ->
+  let cb := log2up (modulus - 1) in
+  binom (Z.to_nat n) (length vs) <= 2 ^ (128 - cb) -> cb <= 128 ->
+  let idx := simplex_index Cns vs in
+  let content := pack cb idx coeff in
+  0 <= content < 2 ^ 128 /\ unpack_index cb content = idx /\ unpack_coeff cb content = coeff /\
+  decode Cns (unpack_index cb content) (length vs) n = vs.
+Proof.
+  intros Hm Hne Hinc Hv Hco. cbv zeta. intros Hfit Hcb128.
+  pose proof (log2up_nonneg (modulus - 1)) as Hcb. set (cb := log2up (modulus - 1)) in *.
+  destruct (cns_roundtrip vs n Hne Hinc Hv) as [Hrt Hrange].
+  assert (Hcoef : 1 <= coeff <= 2 ^ cb).
+  { split; [lia|]. pose proof (log2up_spec (modulus - 1) (coeff - 1) ltac:(lia)). fold cb in H. lia. }
+  assert (Hidx : 0 <= simplex_index Cns vs < 2 ^ (128 - cb)) by lia.
+  destruct (pack_roundtrip cb (simplex_index Cns vs) coeff Hcb (proj1 Hidx) Hcoef) as [U1 U2].
+  pose proof (pack_bound cb (128 - cb) (simplex_index Cns vs) coeff Hcb ltac:(lia) Hidx Hcoef) as Hpb.
+  replace (128 - cb + cb) with 128 in Hpb by lia.
+  repeat split; try lia; try assumption. rewrite U1. exact Hrt.
+Qed.
+
+(* every number below C(n,k) is the index of a k-subset of [0,n): with cns_roundtrip, a bijection *)
+Theorem cns_surjective (k : nat) : forall (n N : Z), (1 <= k)%nat -> 0 <= N < binom (Z.to_nat n) k ->
+  exists vs, length vs = k /\ increasing 0 vs /\ (forall v, In v vs -> v < n) /\ simplex_index Cns vs = N.
+Proof.
+  induction k as [|k IH]; intros n N Hk HN; [lia|].
+  destruct k as [|k'].
+  - rewrite binom_1 in HN. exists [N]. split; [reflexivity|]. split; [cbn; lia|]. split.
+    + intros v [<-|[]]. lia.
+    + unfold simplex_index. cbn [simplex_index_from enc]. rewrite cns_enc_binom.
+      change (Z.to_nat 1) with 1%nat. rewrite binom_1. lia.
+  - assert (HnK : (S (S k') <= Z.to_nat n)%nat).
+    { destruct (le_lt_dec (S (S k')) (Z.to_nat n)) as [H|H]; [exact H|]. rewrite binom_gt in HN by exact H. lia. }
+    pose proof (get_max_spec (fun w => binom (Z.to_nat w) (S (S k')) <=? N)) as G. cbv zeta in G.
+    destruct G with (top := n - 1) (bottom := Z.of_nat (S (S k')) - 1) as (A & B & C).
+    + intros w w' Hw E. apply Z.leb_gt in E. apply Z.leb_gt.
+      pose proof (binom_mono (Z.to_nat w) (Z.to_nat w') (S (S k')) ltac:(lia)). lia.
+    + lia.
+    + apply Z.leb_le. rewrite binom_gt by lia. lia.
+    + set (r := get_max (n - 1) (Z.of_nat (S (S k')) - 1) (fun w => binom (Z.to_nat w) (S (S k')) <=? N)) in *.
+      apply Z.leb_le in B.
+      assert (Hr1 : N < binom (S (Z.to_nat r)) (S (S k'))).
+      { destruct (Z.eq_dec r (n - 1)) as [E|Hne].
+        - replace (S (Z.to_nat r)) with (Z.to_nat n) by lia. lia.
+        - specialize (C (r + 1) ltac:(lia)). apply Z.leb_gt in C.
+          replace (Z.to_nat (r + 1)) with (S (Z.to_nat r)) in C by lia. exact C. }
+      change (binom (S (Z.to_nat r)) (S (S k'))) with (binom (Z.to_nat r) (S k') + binom (Z.to_nat r) (S (S k'))) in Hr1.
+      destruct (IH r (N - binom (Z.to_nat r) (S (S k')))) as (vs & L & I & V & E); [lia|lia|].
+      exists (vs ++ [r]). split; [rewrite app_length; cbn [length]; lia|]. split.
+      * apply increasing_snoc. split; [exact I|]. split; [lia|exact V].
+      * split.
+        -- intros v Hin. apply in_app_or in Hin. destruct Hin as [Hin|[<-|[]]]; [specialize (V v Hin); lia|lia].
+        -- rewrite cns_index_snoc, E, L. lia.
+Qed.
